@@ -22,84 +22,84 @@ CLAIMED['C16'] = dict(
 CLAIMED['C01'] = dict(
     category='other', design_ref='DESIGN.md section 3, C01',
     technique='static analysis: exact evaluation of constant-table initialisers against an independent RFC 1951 canonical-code reference; compiler/assembler record-layout and constant mirror (offsetof vs FIELD/equ)',
-    text='Partial by design: decides three families of necessary conditions that hold or fail for every input at once, in all three documented window configurations (default, IGZIP_HIST_SIZE=8192, LONGER_HUFFTABLE): (1) every cell of the built-in level-0 Huffman tables and of the ICF fixed table equals the canonical code of the table\'s own stored deflate header / the RFC fixed code, with the shift/mask read from the consumers\' IR; (2) RFC 1951 constant tables, C and asm copies; (3) every FIELD/equ offset and every same-named integer constant agrees between the assembler and the C compiler for the deflate data structures, TMP-state enum arithmetic, wrapper/stored-block constants. That emitted streams decode to the input (match finders, state machine, bit packing) is NOT decided.',
+    text='Partial by design: decides three families of necessary conditions that hold or fail for every input at once, in all three documented window configurations (default, IGZIP_HIST_SIZE=8192, LONGER_HUFFTABLE): (1) every cell of the built-in level-0 Huffman tables and of the ICF fixed table equals the canonical code of the table\'s own stored deflate header / the RFC fixed code, with the shift/mask read from the consumers\' IR; (2) RFC 1951 constant tables, C and asm copies; (3) every FIELD/equ offset and every same-named integer constant agrees between the assembler and the C compiler for the deflate data structures, TMP-state enum arithmetic, wrapper/stored-block constants. Added while building: every private copy of an RFC table found in any object; bit- vs byte-index units of first-difference positions; the constant-run fast path decoded under its own canned header for all 258 residues of the run length. That emitted streams decode to the input (match finders, state machine, bit packing) is NOT decided.',
     note='Trusts clang/nasm constant evaluation and the checker\'s RFC 1951 reference (tools/rfc1951.py).')
 
 CLAIMED['C02'] = dict(
     category='other', design_ref='DESIGN.md section 3, C02',
     technique='static analysis: exact evaluation of the pre-generated inflate lookup-table initialisers against canonical Huffman decoding (RFC 1951) of the code each table is installed for; compiler/assembler constant and layout mirror',
-    text='Partial by design: (1) every cell of static_inflate.h\'s four lookup tables is re-decoded by an independent canonical-code reference for the code it is installed for - the RFC fixed code, and the header stored in this configuration\'s hufftables_default (what header_matches_pregen compares the input with) - in the default, IGZIP_HIST_SIZE=8192 and LONGER_HUFFTABLE builds: symbols incl. packed multi-literal cells, consumed bit counts, long-code redirects, invalid markers; where header_matches_pregen is compiled to never match, the pregen tables carry no obligation; (2) RFC length/distance tables in C and asm and the hard-coded offsets the asm decoders use into them; (3) all lookup-entry bit-layout constants, block states, status codes and struct offsets agree between igzip_inflate.c (which builds the tables) and the asm decoders (which read them). Decoding of arbitrary valid streams (dynamic table construction, decode loops) is NOT decided.',
+    text='Partial by design: (1) every cell of static_inflate.h\'s four lookup tables is re-decoded by an independent canonical-code reference for the code it is installed for - the RFC fixed code, and the header stored in this configuration\'s hufftables_default (what header_matches_pregen compares the input with) - in the default, IGZIP_HIST_SIZE=8192 and LONGER_HUFFTABLE builds: symbols incl. packed multi-literal cells, consumed bit counts, long-code redirects, invalid markers; where header_matches_pregen is compiled to never match, the pregen tables carry no obligation; (2) RFC length/distance tables in C and asm and the hard-coded offsets the asm decoders use into them; (3) all lookup-entry bit-layout constants, block states, status codes and struct offsets agree between igzip_inflate.c (which builds the tables) and the asm decoders (which read them). Added while building: roll-back cleanliness of the asm decoders\' parked output, trailer consumption, counter balance of all 27 portable inflate functions. Decoding of arbitrary valid streams (dynamic table construction, decode loops) is NOT decided.',
     note='Trusts clang/nasm constant evaluation and the checker\'s RFC 1951 reference; symbol 284 with extra value 31 may be rejected or decoded as 258 (zlib-compatible).')
 
 CLAIMED['C04'] = dict(
     category='other', design_ref='DESIGN.md section 3, C04',
     technique='static analysis: exact evaluation of CRC table/constant initialisers (from compiled and assembled objects) against GF(2)[x] arithmetic: byte-CRC tables, x^e mod P congruence of folding constants per fold geometry, Barrett pairs, merge tables; IR lint for table pairing/inversion; constant-bound arithmetic for Adler-32',
-    text='Partial by design: decides that all 12 CRC lookup tables are the byte-CRC of the documented polynomial (reference anchored to published check values); that every folding constant rk* of all 30 PCLMUL kernels - including the _01/_02/by4/by8 variants the host never dispatches - is congruent to x^e mod P for the exponent its fold distance prescribes, and rk7/rk8 are the Barrett pair, by formula per representation; the merge tables of the two crc32-instruction iSCSI kernels; that each *_base function reads exactly its own table with the documented inversion convention; Adler modulus 65521 in C and asm and that the deferred-modulo block sizes cannot overflow the accumulators; (with C05 machinery) that checksum kernels store nothing outside their stack frame. That the folding code itself (pclmulqdq immediates, tails) computes the CRC and that seeds chain is NOT decided.',
+    text='Partial by design: decides that all 12 CRC lookup tables are the byte-CRC of the documented polynomial (reference anchored to published check values); that every folding constant rk* of all 30 PCLMUL kernels - including the _01/_02/by4/by8 variants the host never dispatches - is congruent to x^e mod P for the exponent its fold distance prescribes, and rk7/rk8 are the Barrett pair, by formula per representation; the merge tables of the two crc32-instruction iSCSI kernels; that each *_base function reads exactly its own table with the documented inversion convention; Adler modulus 65521 in C and asm and that the deferred-modulo block sizes cannot overflow the accumulators; (with C05 machinery) that checksum kernels store nothing outside their stack frame. Added while building: seed / result inversion parity of all 58 implementation paths (tools/crcinv.py); access bounds of the 30 folding kernels; no narrowing of the 64-bit length. That the folding code itself (pclmulqdq immediates, tail shuffles, the crc32-instruction kernels\' remainder dispatch) computes the CRC is NOT decided.',
     note='Trusts nasm/clang constant evaluation, tools/gf2.py, and the catalogue check values used to anchor the reference polynomials.')
 
 CLAIMED['C03'] = dict(
     category='other', design_ref='DESIGN.md section 3, C03',
     technique='static analysis: pointer-provenance dataflow (origin x affine abstract domain) over the CFG of every assembled kernel (nasm+objdump, recursive descent); AST lint of the C batching wrappers with resolved callees; entry-guard extraction by affine dataflow; flag-liveness dataflow',
-    text='Partial by design. Decides for all six ISA families (five never run by the suite on this host): (1) the ec_encode_data_<isa> wrappers call the widest kernel in the loop and advance g_tbls by W*k*S (S read from the table initialisers), coding and rows by W; have one arm per remainder calling the kernel of that arity with the documented arguments; stay within one ISA family; and fall back to the portable code below a length that is >= the minimum each called kernel accepts (extracted from the kernel\'s entry guard) - the wrappers ignore the kernels\' return value, so a mismatch silently leaves parity unwritten; (2) every store of all 33 dot-product kernels goes through dest[j], 0<=j<arity, or the stack frame, sources are read only through the source array, tables through the table pointer, outputs are never read; (3) every compare is consumed. NOT decided: the GF(2^8) arithmetic inside the kernels and the length bounds of accesses.',
+    text='Partial by design. Decides for all six ISA families (five never run by the suite on this host): (1) the ec_encode_data_<isa> wrappers call the widest kernel in the loop and advance g_tbls by W*k*S (S read from the table initialisers), coding and rows by W; have one arm per remainder calling the kernel of that arity with the documented arguments; stay within one ISA family; and fall back to the portable code below a length that is >= the minimum each called kernel accepts (extracted from the kernel\'s entry guard) - the wrappers ignore the kernels\' return value, so a mismatch silently leaves parity unwritten; (2) every store of all 33 dot-product kernels goes through dest[j], 0<=j<arity, or the stack frame, sources are read only through the source array, tables through the table pointer, outputs are never read; (3) every compare is consumed. Added while building: a type system over vector registers (table halves / nibble indices / products / sums; tools/gftype.py) shows every stored value to be a XOR of table-lookup products of the right halves; row labels (tools/gfrows.py) show table row j to feed destination j; access bounds by tools/bounds.py; undefined-register and k-mask-width lints; no data-dependent loop exit in the portable kernels. NOT decided: that each source byte is accumulated exactly once in overlapped tails.',
     note='Trusts nasm/objdump decoding, the fail-closed ASMFLOW transfer functions, SysV argument roles from erasure_code.h, clang AST.')
 CLAIMED['C13'] = dict(
     category='other', design_ref='DESIGN.md section 3, C13',
     technique='static analysis: pointer-provenance dataflow (origin x affine abstract domain) over the CFG of every assembled kernel (nasm+objdump, recursive descent); AST lint of the update wrappers; entry-guard extraction; flag liveness',
-    text='Partial by design, same split as C03 on the update side: the six ec_encode_data_update_<isa> wrappers (stride, arms, ISA family, k and vec_i passed through unchanged, hand-off length vs. kernel entry guards); all 35 gf_<n>vect_mad_<isa> kernels store and read-modify only through parity pointers and read the source only through src; gf_vect_mul_{sse,avx} store only through dest and reject len % 32 != 0 with a non-zero return before touching memory. NOT decided: that overlapped tail bytes are accumulated exactly once, and the GF arithmetic.',
+    text='Partial by design, same split as C03 on the update side: the six ec_encode_data_update_<isa> wrappers (stride, arms, ISA family, k and vec_i passed through unchanged, hand-off length vs. kernel entry guards); all 35 gf_<n>vect_mad_<isa> kernels store and read-modify only through parity pointers and read the source only through src; gf_vect_mul_{sse,avx} store only through dest and reject len % 32 != 0 with a non-zero return before touching memory. Added while building: the same vector type system, row labels and bounds as C03 for the 37 mad / mul kernels; no data-dependent loop exit in the portable update/mad/mul kernels. NOT decided: that overlapped tail bytes are accumulated exactly once.',
     note='Same trusted base as C03.')
 CLAIMED['C05'] = dict(
     category='other', design_ref='DESIGN.md section 3, C05',
-    technique='static analysis: pointer-provenance dataflow (origin x affine abstract domain) over the CFG of every assembled kernel (nasm+objdump, recursive descent), with per-family declared read/write object sets; coverage accounting of every byte of .text',
-    text='Partial by design: decides WHICH object every memory access of every asm function goes to, not whether its offset stays inside the object. For all 138 asm kernels (141 units; every byte of .text is shown to be reachable code, padding or a labelled data table) each store/load/read-modify-write is attributed to the argument object, stack frame or constant pool its address derives from and must lie in the declared write/read set of its family: read-only kernels are store-free; nothing is written through source, table, Huffman-table or global pointers; and no kernel stores a pointer derived from caller input into persistent state (only back into the next_in field). BOUNDS (pos+width <= len on every tail path, C array indexes, sufficiency of the retained history) are NOT decided: they need relational numeric invariants that no tool in this sandbox provides.',
+    technique='static analysis: pointer-provenance dataflow (origin x affine abstract domain) over the CFG of every assembled kernel (nasm+objdump, recursive descent), with per-family declared read/write object sets; coverage accounting of every byte of .text; relational numeric abstract interpretation of the kernels\' index registers (bounds); difference-bound analysis of SSA pointers in the portable match finders',
+    text='Partial by design: decides WHICH object every memory access of every asm function goes to, not whether its offset stays inside the object. For all 138 asm kernels (141 units; every byte of .text is shown to be reachable code, padding or a labelled data table) each store/load/read-modify-write is attributed to the argument object, stack frame or constant pool its address derives from and must lie in the declared write/read set of its family: read-only kernels are store-free; nothing is written through source, table, Huffman-table or global pointers; and no kernel stores a pointer derived from caller input into persistent state (only back into the next_in field). Added while building: an abstract interpreter written for this code base (affine bound sets in len x congruences x facts about len, two-register sum relations, k-mask bit counts, pointer offsets; tools/bounds.py) proves pos + width <= len access by access for 107 of the 138 kernels (EC, mad, mul, RAID P+Q, CRC folding, zero-detect SSE/AVX) and lists the remaining kernels by name with the reason as not decided; a difference-bound analysis (tools/enddist.py) proves every load of the four portable match finders to lie below the end of the input, using the contract of compare258. NOT decided: C array indexes elsewhere, sufficiency of the retained history, the kernels listed as outside the domain.',
     note='Trusts nasm/objdump decoding, ASMFLOW (fail-closed), argument roles in tools/kernels.py from the public prototypes, struct offsets evaluated by nasm.')
 CLAIMED['C08'] = dict(
     category='other', design_ref='DESIGN.md section 3, C08',
     technique='static analysis: pointer-provenance dataflow (origin x affine abstract domain) over the CFG of every assembled kernel (nasm+objdump, recursive descent) (array element index affine in vects); entry-guard extraction vs. limits parsed from raid.h; flag-liveness dataflow; constant probes',
-    text='Partial by design: for all nine RAID asm kernels, parity stores go only through array[vects-1] (xor) / array[vects-2] and array[vects-1] (P+Q) and check kernels store nothing; vects below the documented minimum of raid.h (and for P+Q a length that is not the documented multiple) reaches a non-zero constant return before any access through the array, success exits return 0; every ptest/cmp of the check kernels is consumed by a branch (a deleted "jnz return_fail" leaves a dead compare); reduction constants are 0x1d in asm and in the SWAR base code. NOT decided: that P/Q bytes have the right values and completeness of detection.',
+    text='Partial by design: for all nine RAID asm kernels, parity stores go only through array[vects-1] (xor) / array[vects-2] and array[vects-1] (P+Q) and check kernels store nothing; vects below the documented minimum of raid.h (and for P+Q a length that is not the documented multiple) reaches a non-zero constant return before any access through the array, success exits return 0; every ptest/cmp of the check kernels is consumed by a branch (a deleted "jnz return_fail" leaves a dead compare); reduction constants are 0x1d in asm and in the SWAR base code. Added while building: value numbering over {xor, 2* in GF(2^8)/0x11D} (tools/horner.py) decides for all 22 source-walking loops that P ^= source and Q = 2*(Q ^ source) with the reduction mask taken from the doubled value and constant 0x1d, correct initial values, lane pairing of loads and stores, and that the check kernels test accumulator ^ stored parity of every lane before a branch to a non-zero return; the loops fetch exactly the documented source indices (R-SRC-COVER); access bounds of the P+Q kernels. NOT decided: the portable kernels\' SWAR arithmetic beyond its constants.',
     note='Same trusted base as C03; documented limits are parsed from the doxygen comments of include/raid.h.')
 CLAIMED['C20'] = dict(
     category='other', design_ref='DESIGN.md section 3, C20',
     technique='static analysis: AST lint with an abstract cursor over the fall-through switch of the portable variant; pointer-provenance and flag-liveness dataflow over the asm variants',
-    text='Partial by design: portable variant - the word loop consumes sizeof(uintmax_t) bytes per iteration and returns on a non-zero word; for every remainder 1..7 the fall-through path reads exactly bytes [0,k) at the cursor and ORs each into the result that decides the return value. Asm variants (sse/avx/avx2/avx512) - store-free, loads only through the buffer argument, every ptest/vptest/cmp consumed, return value is a 0/non-zero constant or flag. NOT decided: the vector variants\' accumulate and overlapped/masked tail arithmetic, and bounds.',
+    text='Partial by design: portable variant - the word loop consumes sizeof(uintmax_t) bytes per iteration and returns on a non-zero word; for every remainder 1..7 the fall-through path reads exactly bytes [0,k) at the cursor and ORs each into the result that decides the return value. Asm variants (sse/avx/avx2/avx512) - store-free, loads only through the buffer argument, every ptest/vptest/cmp consumed, return value is a 0/non-zero constant or flag. Added while building: a type system for the vector variants (only OR / copy / zero-compare may combine buffer-derived values; found and fixed an ADD that wraps), no load when len is 0, access bounds of the SSE/AVX variants, no narrowing of the length. NOT decided: bounds of the block-counting AVX2/AVX-512 variants.',
     note='Trusts clang AST, nasm/objdump decoding, ASMFLOW.')
 
 CLAIMED['C15'] = dict(
     category='proof', design_ref='DESIGN.md section 3, C15',
     technique='static analysis: whole-program write-effect analysis - pointer-provenance over the linked LLVM IR of all C units (every store/memcpy/memset destination traced to its root) and over the CFG of every assembled kernel; path-enumerating interpretation of the dispatch resolvers; field def/use comparison of init vs reset',
-    text='Decides the no-shared-mutable-state clause completely for the current tree: every write site of all 278 C functions and every store of all 138 asm kernels is traced to its provenance root, and none is a library-owned global (function-local statics included), a RIP-relative/absolute address, TLS, or a pointer loaded from stream->hufftables (the only escaping globals); the 42 dispatch resolvers each perform exactly one 8-byte store of a CPUID/XGETBV-determined library function address into their own slot, which is 8-byte aligned in the shared object linked from the current tree, restore every register, and mbinit falls through into the interface stub; external callees are a fixed reentrant libc set (no allocation, I/O, time, locale, getenv), no inline asm, no indirect calls; isal_deflate_reset / isal_inflate_reset assign every byte the matching init assigns except the documented user fields. The obligation set is finite and enumerated completely (proof level for these clauses). NOT decided: independence from prior contents of level_buf / internal arrays / output buffer.',
+    text='Decides the no-shared-mutable-state clause completely for the current tree: every write site of all 278 C functions and every store of all 138 asm kernels is traced to its provenance root, and none is a library-owned global (function-local statics included), a RIP-relative/absolute address, TLS, or a pointer loaded from stream->hufftables (the only escaping globals); the 42 dispatch resolvers each perform exactly one 8-byte store of a CPUID/XGETBV-determined library function address into their own slot, which is 8-byte aligned in the shared object linked from the current tree, restore every register, and mbinit falls through into the interface stub; external callees are a fixed reentrant libc set (no allocation, I/O, time, locale, getenv), no inline asm, no indirect calls; isal_deflate_reset / isal_inflate_reset assign every byte the matching init assigns except the documented user fields. The obligation set is finite and enumerated completely (proof level for these clauses). Added while building: definite-assignment dataflow over the bytes of the contexts through the call graph incl. asm kernels (tools/fieldinit.py): isal_inflate_stateless reads before writing only caller-set fields, isal_inflate\'s reads are covered by init / reset, isal_deflate_stateless exposes only a frozen, reasoned list of five internal fields; scratch histograms are cleared. NOT decided: independence from prior contents of level_buf hash tables and of the output buffer.',
     note='Trusts clang IR + sroa, tools/llir.py (unknown provenance is never assumed local), nasm/objdump decoding, ASMFLOW and FACTS interpreters. Object-level .data alignment of the multibinary units is 4; slot alignment is checked on the link layout.')
 
 CLAIMED['C19'] = dict(
     category='other', design_ref='DESIGN.md section 3, C19',
     technique='static analysis: dataflow over the linked LLVM IR - edge-removal reachability (size test lies on every path to a write), value-dependency matching of header fields to endian helpers, interprocedural return-value sets; constant probes',
-    text='Partial by design: (1) in isal_write_gzip_header and isal_write_zlib_header the successful edge of the avail_out size test lies on every path to any store through next_out and any update of next_out/avail_out/total_out (helper calls included through write summaries), so the failing case leaves the stream untouched; (2) every multi-byte header field (gzip MTIME, XLEN, header CRC16; zlib DICTID) is matched through value dependencies to the endian helper that writes and reads it and must have the byte order of RFC 1952 / RFC 1950; the helpers\' own meaning is established from optimised IR (one bswap of the right width or none); (3) flag bits, method, lengths, shifts equal the RFCs and the FCHECK mod-31 arithmetic is present in producer and reader; (4) the readers return only documented status codes. NOT decided: resumable parsing over arbitrary splits, overflow resumption, exact stop position, read bounds on arbitrary bytes.',
+    text='Partial by design: (1) in isal_write_gzip_header and isal_write_zlib_header the successful edge of the avail_out size test lies on every path to any store through next_out and any update of next_out/avail_out/total_out (helper calls included through write summaries), so the failing case leaves the stream untouched; (2) every multi-byte header field (gzip MTIME, XLEN, header CRC16; zlib DICTID) is matched through value dependencies to the endian helper that writes and reads it and must have the byte order of RFC 1952 / RFC 1950; the helpers\' own meaning is established from optimised IR (one bswap of the right width or none); (3) flag bits, method, lengths, shifts equal the RFCs and the FCHECK mod-31 arithmetic is present in producer and reader; (4) the readers return only documented status codes. Added while building: writer/reader field pairing, the reader\'s resume states, counter balance of the two header writers. NOT decided: resumable parsing over arbitrary splits as a whole, exact stop position, read bounds on arbitrary bytes.',
     note='Trusts clang IR + sroa, tools/llir.py provenance/dependency analysis, the RFC field table in props/c19.py. The in-tree test only round-trips writer to reader.')
 
 CLAIMED['C10'] = dict(
     category='other', design_ref='DESIGN.md section 3, C10',
     technique='static analysis: path/effect analysis over the linked LLVM IR with interprocedural write summaries (backward reachability from error-return edges); switch-arm lint against compiler-evaluated constants',
-    text='Partial by design: (1) in isal_deflate and isal_deflate_stateless every path that ends in the INVALID_FLUSH return or in the return of a non-zero check_level_req() result contains no store through next_out and no update of next_out/avail_out/total_out - callees (C and asm) are covered by write summaries; (2) check_level_req passes level 0, rejects a NULL level_buf, has switch arms exactly {1,2,3} each comparing level_buf_size with ISAL_DEF_LVLn_MIN and rejecting below it, and rejects every other level; (3) ISAL_DEF_LVLn_MIN >= the size the level-n initialiser returns + one token, and the stateless level-1 fallback buffer is >= ISAL_DEF_LVL1_MIN, in the default / 8 KiB / LONGER_HUFFTABLE builds; (4) stored-block and wrapper size constants follow the RFCs. NOT decided: that no call writes beyond avail_out, the exact stored-size bound, counter accounting, termination.',
+    text='Partial by design: (1) in isal_deflate and isal_deflate_stateless every path that ends in the INVALID_FLUSH return or in the return of a non-zero check_level_req() result contains no store through next_out and no update of next_out/avail_out/total_out - callees (C and asm) are covered by write summaries; (2) check_level_req passes level 0, rejects a NULL level_buf, has switch arms exactly {1,2,3} each comparing level_buf_size with ISAL_DEF_LVLn_MIN and rejecting below it, and rejects every other level; (3) ISAL_DEF_LVLn_MIN >= the size the level-n initialiser returns + one token, and the stateless level-1 fallback buffer is >= ISAL_DEF_LVL1_MIN, in the default / 8 KiB / LONGER_HUFFTABLE builds; (4) stored-block and wrapper size constants follow the RFCs. Added while building: counter accounting - in all 58 portable functions that get the stream and in the 10 asm deflate kernels, total - next and total + avail are preserved on every path to every return (path-sensitive linear-form dataflow, tools/acct.py / tools/asmlin.py), with call-site obligations for update_state; the Huffman encoders\' output stores are covered by the m_out_end guard with the right slack (tools/outguard.py); the portable encoders flush only after is_full() said no; the stored-size bound per wrapper mode. NOT decided: termination, value-level arithmetic inside space guards.',
     note='Trusts clang IR + sroa, tools/llir.py and the asm write summaries (unknown provenance counts as an output effect).')
 CLAIMED['C11'] = dict(
     category='other', design_ref='DESIGN.md section 3, C11',
     technique='static analysis: switch-arm to callee maps with post-dominator join, control-dependence of the success return on a comparison, and value-dependency sets over the linked LLVM IR',
-    text='Partial by design: (1) both update_checksum functions dispatch every gzip-family wrapper flag to crc32_gzip_refl and every zlib-family flag to isal_adler32_bam1, and nothing else; (2) in isal_inflate_stateless and isal_inflate (completion and ISAL_CHECKSUM_CHECK resume) exactly the verifying crc_flag modes reach check_gzip_checksum / check_zlib_checksum (with finalize_adler32 exactly once) and the comparator result flows to the return value; (3) in each comparator ISAL_DECOMP_OK is reachable only through the equal-edge of a comparison whose operands depend on the trailer bytes, state->crc and (gzip) state->total_out, the other edge returns ISAL_INCORRECT_CHECKSUM, and the trailer is read in the RFC byte order; (4) write_trailer stores CRC32|ISIZE little-endian / Adler-32 big-endian for the matching flags. NOT decided: the checksum values (ranges passed to update_checksum) and detection of every corruption.',
+    text='Partial by design: (1) both update_checksum functions dispatch every gzip-family wrapper flag to crc32_gzip_refl and every zlib-family flag to isal_adler32_bam1, and nothing else; (2) in isal_inflate_stateless and isal_inflate (completion and ISAL_CHECKSUM_CHECK resume) exactly the verifying crc_flag modes reach check_gzip_checksum / check_zlib_checksum (with finalize_adler32 exactly once) and the comparator result flows to the return value; (3) in each comparator ISAL_DECOMP_OK is reachable only through the equal-edge of a comparison whose operands depend on the trailer bytes, state->crc and (gzip) state->total_out, the other edge returns ISAL_INCORRECT_CHECKSUM, and the trailer is read in the RFC byte order; (4) write_trailer stores CRC32|ISIZE little-endian / Adler-32 big-endian for the matching flags. Added while building: every update_checksum call gets (saved cursor, cursor now - saved cursor); no non-zero wrapper flag skips an update (per-flag partial evaluation of the CFG); Adler finalisation range; state after the comparison. NOT decided: detection of every corruption.',
     note='Trusts clang IR + sroa and tools/llir.py. No test of the suite feeds a corrupted stream.')
 
 CLAIMED['C06'] = dict(
     category='other', design_ref='DESIGN.md section 3, C06',
     technique='static analysis: interprocedural return-value sets with branch filtering, edge-removal reachability between validation guards and sinks over the LLVM IR, guard/sink reachability and reaching-constant analysis over the assembled decoders, flag liveness',
-    text='Partial by design: (1) isal_inflate, isal_inflate_stateless, isal_inflate_set_dict return only documented status codes, the C and both asm block decoders agree on {OK, END_INPUT, OUT_OVERFLOW, INVALID_SYMBOL, INVALID_LOOKBACK}, internal positive codes do not escape isal_inflate; (2) portable decoder: every look-back copy is reachable only through the passed next_out - dist >= start_out test, the RFC distance table is indexed only after symbol < DIST_LEN, Huffman tables are built only after the HLIT and HDIST range tests, the code-length overrun / end-of-block test and the over-subscription tests passed, a stored block is accepted only after LEN/NLEN agree; header copy helpers report an overflow only when a buffer exists; (3) asm decoders (_01, _04): on every path from a distance-table load to a look-back read lies a branch to the INVALID_LOOKBACK exit, every compare is consumed, no undefined register is read. NOT decided: termination, never-false-success, equality with a reference decoder, numerical correctness of a guard that is present.',
+    text='Partial by design: (1) isal_inflate, isal_inflate_stateless, isal_inflate_set_dict return only documented status codes, the C and both asm block decoders agree on {OK, END_INPUT, OUT_OVERFLOW, INVALID_SYMBOL, INVALID_LOOKBACK}, internal positive codes do not escape isal_inflate; (2) portable decoder: every look-back copy is reachable only through the passed next_out - dist >= start_out test, the RFC distance table is indexed only after symbol < DIST_LEN, Huffman tables are built only after the HLIT and HDIST range tests, the code-length overrun / end-of-block test and the over-subscription tests passed, a stored block is accepted only after LEN/NLEN agree; header copy helpers report an overflow only when a buffer exists; (3) asm decoders (_01, _04): on every path from a distance-table load to a look-back read lies a branch to the INVALID_LOOKBACK exit, every compare is consumed, no undefined register is read. Added while building: the value a look-back guard compares is the address later used (linear forms); the code-length cursor is bounded by the announced end where the tables are built (difference bounds); every constant-length memset of an array clears the whole array; the asm decoders\' next/avail/total counters are balanced on every exit path (whole-function linear-form dataflow; found and fixed the fast loop\'s error exits). NOT decided: termination, never-false-success, equality with a reference decoder.',
     note='Trusts clang IR + sroa, tools/llir.py, nasm/objdump decoding, ASMFLOW. One documented over-approximation: the header-overflow codes in isal_inflate_stateless (see evidence notes).')
 CLAIMED['C17'] = dict(
     category='other', design_ref='DESIGN.md section 3, C17',
     technique='static analysis: dominance/value-shape analysis over LLVM IR, interval abstract interpretation of set_dist_mask and _zlib_header_in_buffer, effect analysis of the dictionary entry points, taint dataflow (origin ids, edge-sensitive guarded set) over the asm match finders',
-    text='Partial by design: (1) in all six portable match finders the distance given to get_dist_code / get_dist_icf_code is dominated by dist - 1 < dist_mask or computed as ((x-1) & dist_mask) + 1; (2) interval analysis over every hist_bits value shows that after set_dist_mask hist_bits is in [1,15] and dist_mask <= min(2^15, IGZIP_HIST_SIZE) - 1 in the default, 8 KiB and LONGER_HUFFTABLE builds, and that the zlib CMF byte advertises CINFO + 8 >= hist_bits; (3) dictionary calls in a wrong state return ISAL_INVALID_STATE on paths without any store, and the history copy is dominated by the length clamp; (4) in the eight scalar asm match finders every value derived from a 16-bit hash-table entry is masked with or compared against a value loaded from dist_mask before it is used in an address. NOT decided: distances of emitted streams as run-time values, dictionary round trips, the vectorised gen_icf_map kernels\' masking (lane-wise).',
+    text='Partial by design: (1) in all six portable match finders the distance given to get_dist_code / get_dist_icf_code is dominated by dist - 1 < dist_mask or computed as ((x-1) & dist_mask) + 1; (2) interval analysis over every hist_bits value shows that after set_dist_mask hist_bits is in [1,15] and dist_mask <= min(2^15, IGZIP_HIST_SIZE) - 1 in the default, 8 KiB and LONGER_HUFFTABLE builds, and that the zlib CMF byte advertises CINFO + 8 >= hist_bits; (3) dictionary calls in a wrong state return ISAL_INVALID_STATE on paths without any store, and the history copy is dominated by the length clamp; (4) in the eight scalar asm match finders every value derived from a 16-bit hash-table entry is masked with or compared against a value loaded from dist_mask before it is used in an address. Added while building: the two vectorised gen_icf_map kernels (lane-wise taint), freshness of dist_mask, the dictionary tail, and that every hash-table priming / save / restore covers the whole table. NOT decided: distances of emitted streams as run-time values, dictionary round trips.',
     note='Trusts clang IR + sroa, tools/llir.py, tools/intervals.py (sound transfer functions, full range for anything not modelled), the asm taint domain in props/c17_asm.py.')
 CLAIMED['C18'] = dict(
     category='other', design_ref='DESIGN.md section 3, C18',
     technique='static analysis: effect and dominance analysis over the LLVM IR of the table install guard and the two builders; compiler-evaluated constant inequalities',
-    text='Partial by design: isal_deflate_set_hufftables refuses with ISAL_INVALID_OPERATION unless state == ZSTATE_NEW_HDR and for unknown types / NULL custom table, on paths without any store, and stream->hufftables is assigned only behind that test; both builders call gen_huff_code_lens with MAX_DEFLATE_CODE_LEN first and with MAX_SAFE_LIT_CODE_LEN / MAX_SAFE_DIST_CODE_LEN exactly on the path guarded by are_hufftables_useable; 13 + (13+5) + (12+13) <= MAX_BITBUF_BIT_WRITE <= 56; the worst-case dynamic header fits ISAL_DEF_MAX_HDR_SIZE. NOT decided: that the builder yields complete prefix codes for every histogram and that the stored header parses back to them.',
+    text='Partial by design: isal_deflate_set_hufftables refuses with ISAL_INVALID_OPERATION unless state == ZSTATE_NEW_HDR and for unknown types / NULL custom table, on paths without any store, and stream->hufftables is assigned only behind that test; both builders call gen_huff_code_lens with MAX_DEFLATE_CODE_LEN first and with MAX_SAFE_LIT_CODE_LEN / MAX_SAFE_DIST_CODE_LEN exactly on the path guarded by are_hufftables_useable; 13 + (13+5) + (12+13) <= MAX_BITBUF_BIT_WRITE <= 56; the worst-case dynamic header fits ISAL_DEF_MAX_HDR_SIZE. Added while building: the extra-bit schedule of are_hufftables_useable equals RFC 1951 for all 58 symbols (constant propagation); the encoder tables are filled with their declared element counts. NOT decided: that the builder yields complete prefix codes for every histogram and that the stored header parses back to them.',
     note='Trusts clang IR + sroa, tools/llir.py, clang constant evaluation.')
 
 CLAIMED['C14'] = dict(
